@@ -10,7 +10,8 @@ var plainNames = []string{"div", "p", "span", "a", "ul", "li", "DIV", "b", "x-y"
 var rawNames = []string{"script", "style", "textarea", "title", "SCRIPT", "Style", "TextArea", "TITLE"}
 var voidNames = []string{"br", "img", "input", "meta", "BR", "hr", "!DOCTYPE", "!doctype", "link"}
 var attrNames = []string{"id", "class", "href", "data-x", "Title", "a", "b", "x:y", "disabled", "é", "a.b", "on_click", "a/b", "/x", "v-if", "@c", "#r",
-	"with", "if", "range", "remove", "else", "elif", "else-if", "text", "define"} // plain attributes named like directives
+	"with", "if", "range", "remove", "else", "elif", "else-if", "text", "define", // plain attributes named like directives
+	"w%", "100%%", "%s", "a%b", "%v%d"} // a name is text, never a format
 var textRunes = []rune("abcXYZ 019 \t\n&;=/'\"-!][>é中  \U0001F600İK.,:$(){}\\`?\uFFFD\uFEFF\U0010FFFF")
 var valRunes = []rune("abcXYZ019&;=/-!][é中\U0001F600.,:(){}\\`?#\uFFFD\uFEFF")
 var exprPool = []string{"a", "a.b", "x+1", "f(1)", "name", "1", "'s'", `"q"`, "a[0]", "a ? 1 : 2", "!b", "len(xs)", "'}'", "'{'", "`}`", "'${'", "a.b.c", " a ", "x  >  1", "m['k']", "-1", "1.5e3", "0x1F", "s+'<'",
